@@ -21,22 +21,26 @@
      C06_frame_body_items / C06_frame_end_of_file : frames for wire declarations, assigns, instance creation, port maps
                     of any definition, defparams, add_blackbox_definitions, the deferred positional maps - in EVERY
                     definition held, what is on a net bit stays on it (everything except a re-basing declaration).
-     C06_full_instance_persists / C06_full_last_module_instance : the induction over the modules of a document and the
-                    items of a body, for the connection clause: in the last module of a document (a flat netlist), the
-                    value elab returns shows bit k of every expression of a named port map on bit k of the port.
-     NOT proved - C06_full stays a Definition: (i) the frame for a RE-BASING declaration (a port declaration
-     "input [7:4] a" after "module m(a)", an ANSI header port of a module instantiated earlier in the file): labels
-     legitimately move there, so modules other than the last need a statement in positions from the low end or the
-     restriction to declarations based at 0 as a reachable-state invariant; (ii) the composition of the deferred
+     C06_full_instance_persists / C06_full_last_module_instance / C06_full_module_instance / C06_full_connections_named :
+                    the induction over the modules of a document and the items of a body, for the connection clause: for
+                    an instance with a named port map in ANY module of a document, the value elab returns shows bit k
+                    of every connection expression on bit k of the port; input class = the boolean predicate
+                    inst_in_class (selects inside the ranges known at that point, ports of the instantiated definition
+                    based at 0, no port declaration later in the body, the instantiated module not declared later).
+     C06_full_assigns_document : the same for the assign clause (pin k of the assignment carries bit k of both sides).
+     NOT proved - C06_full stays a Definition: (i) the connection clause when the instantiated module is declared LATER
+     in the file (forward reference) or a port declaration follows the instance: a re-basing declaration
+     ("input [7:4] a" after "module m(a)") legitimately moves labels, so this needs the statement in positions from the
+     low end, or "declarations based at 0" as a reachable-state invariant; (ii) the composition of the deferred
      positional maps over the positions of one instance; (iii) the remaining clauses of denote at document level
-     (modules, ports, cables, instance parameters / attributes, assigns are proved per construct only) and exactness
-     (that the nets hold nothing else).
+     (modules, ports, cables, instance parameters / attributes are proved per construct only) and exactness (that the
+     nets and assigns hold nothing else).
    Character-level tokenisation and the recursive descent from tokens to the document value are not modelled. *)
 From Coq Require Import String.
 From Coq Require Import List ZArith Bool Permutation Lia.
 From SV Require Import Base.Base Fmt.VBits Fmt.VExpr Fmt.VDoc Fmt.VTop Fmt.VElab Fmt.VSpec Fmt.VSem
   Proofs.VerilogLists Proofs.VerilogSlice Proofs.VerilogGrow Proofs.VerilogPort Proofs.VerilogAssign Proofs.VerilogTop
-  Proofs.VElabBase Proofs.VElabInv Proofs.VElabWf Proofs.VElabExpr Proofs.VElabConn Proofs.VElabAssign Proofs.VElabPorts Proofs.VElabNets Proofs.VElabTop Proofs.VElabStable Proofs.VElabVis Proofs.VElabFrame Proofs.VElabFrameX Proofs.VElabDoc Proofs.VElabRun Proofs.VElabRunX.
+  Proofs.VElabBase Proofs.VElabInv Proofs.VElabWf Proofs.VElabExpr Proofs.VElabConn Proofs.VElabAssign Proofs.VElabPorts Proofs.VElabNets Proofs.VElabTop Proofs.VElabStable Proofs.VElabVis Proofs.VElabFrame Proofs.VElabFrameX Proofs.VElabDoc Proofs.VElabRun Proofs.VElabRunX Proofs.VElabRunA.
 Import ListNotations.
 Local Close Scope string_scope.
 Open Scope Z_scope.
@@ -668,6 +672,48 @@ Example C06_full_connections_named_witness :
   inst_in_class (firstn 1 ex_doc4) top (skipn 2 ex_doc4) (firstn 4 (vm_body top)) (S "sub") [(S "p", Some (DAtom (DBit (S "a") 9)))] [] = false.
 Proof. vm_compute. repeat split. Qed.
 
+(* the assign clause on whole documents: an assign in any module m (no port declaration after it in the body, no later
+   module re-declaring m), read in the state s with both sides typed: the value elab returns holds, in the definition
+   of m, one assignment whose pin k carries bit k - from the low end - of the left and of the right side, as wide as
+   the narrower side *)
+Theorem C06_full_assigns_document : forall pre m post before lhs rhs after n,
+  elab (pre ++ m :: post) = Ok n -> vm_cell m = false ->
+  vm_body m = before ++ IAssign lhs rhs :: after -> Forall not_port_decl after ->
+  Forall (fun m2 => vm_name m2 <> vm_name m) post ->
+  exists s0 s5 cur s,
+    fold_res module_decl pre st_init = Ok s0 /\ module_open m s0 = Ok (s5, cur) /\ fold_res (body_item cur) before s5 = Ok s /\
+    Inv s /\ VInv s /\
+    (datom_typed (crange (get_def cur s)) lhs -> datom_typed (crange (get_def cur s)) rhs ->
+     let lb := datom_bits (crange (get_def cur s)) lhs in let rb := datom_bits (crange (get_def cur s)) rhs in
+     exists d, nth_error (nv_defs n) cur = Some d /\
+       In (map (fun k => (nth_error lb k, nth_error rb k)) (seq 0 (Nat.min (length lb) (length rb)))) (nd_assigns d)).
+Proof. exact module_assign_value. Qed.
+Print Assumptions C06_full_assigns_document.
+
+(* "assign y[0] = n1;" at the end of top in ex_doc4 (the module aux follows) *)
+Example C06_full_assigns_document_witness :
+  match elab ex_doc4 with
+  | Ok n => exists d, nth_error (nv_defs n) 1 = Some d /\ In [(Some (S "y", 0), Some (S "n1", 0))] (nd_assigns d)
+  | Err _ => False
+  end.
+Proof.
+  destruct (elab ex_doc4) as [n|er] eqn:E; [|vm_compute in E; discriminate].
+  destruct (C06_full_assigns_document (firstn 1 ex_doc4) (nth 1 ex_doc4 {| vm_name := []; vm_cell := true; vm_params := []; vm_attrs := []; vm_header := []; vm_body := [] |})
+              (skipn 2 ex_doc4)
+              (firstn 6 (vm_body (nth 1 ex_doc4 {| vm_name := []; vm_cell := true; vm_params := []; vm_attrs := []; vm_header := []; vm_body := [] |})))
+              (DBit (S "y") 0) (DId (S "n1")) [] n E eq_refl eq_refl) as (s0 & s5 & cur & s & E0 & E5 & Es & _ & _ & K).
+  { constructor. }
+  { constructor; [|constructor]. vm_compute. discriminate. }
+  vm_compute in E0. inversion E0; subst s0. clear E0.
+  vm_compute in E5. inversion E5; subst s5 cur. clear E5.
+  vm_compute in Es. inversion Es; subst s. clear Es.
+  match type of K with ?A -> _ => assert (H1 : A) end.
+  { split; [reflexivity|]. cbn. exists 0, 2%nat. split; [vm_compute; reflexivity|lia]. }
+  specialize (K H1).
+  match type of K with ?A -> _ => assert (H2 : A) by (split; [reflexivity|exact Logic.I]) end. specialize (K H2).
+  cbv zeta in K. destruct K as (d & Hd & Hin). exists d. split; [exact Hd|]. vm_compute in Hin. exact Hin.
+Qed.
+
 (* ANSI headers: a direction, and the range given with it or after it, stays in force for the names that follow
    until the next direction keyword (former finding V06-ansi-inherit-dir) *)
 Theorem C06_ansi_header_inherits : forall dr rg n rg' n' rest,
@@ -700,6 +746,8 @@ Example C06_ansi_header_witness :
 Proof. vm_compute. split; reflexivity. Qed.
 
 (* The statement at full strength: denote = the meaning of a document (the Coq counterpart of
-   harness/verilog_gen.expected), well_typed = the property's input class. *)
+   harness/verilog_gen.expected), well_typed = the property's input class. Proved of it: the connection clause for
+   named port maps (C06_full_connections_named, input class inst_in_class) and the assign clause
+   (C06_full_assigns_document) on the value elab returns, C06_wf for all documents, the top clause (C06_full_top). *)
 Definition C06_full (well_typed : vdoc -> Prop) (denote : vdoc -> nv -> Prop) : Prop :=
   forall d n, well_typed d -> elab d = Ok n -> exists m, denote d m /\ same_netlist m n.
